@@ -130,7 +130,7 @@ PROPS["C12"] = {
     "level_text": "Stateful property test over a population of two ExtendedDaemonSets (same name in another namespace, or another name in the same namespace), foreign pods carrying a matching name label in a third namespace and unlabelled pods in the EDS namespace; every write of every reconcile (Create/Update/Patch/Delete/status) must target the reconciling EDS, one of its own replica sets, its PodTemplate or a pod of its namespace with its name label; the recorded active/canary replica set must be an own one; at quiescence status.current equals the number of own pods and the foreign pods are untouched.",
     "level_note": SM_NOTE,
     "technique": "stateful property-based testing (rapid) with a per-call ownership invariant",
-    "quick": {"jobs": [rapid_job("sm", "^TestC12SM$", 500, shards=4)]},
+    "quick": {"jobs": [rapid_job("sm", "^TestC12SM$", 250, shards=4)]},
     "thorough": {"jobs": [rapid_job("sm", "^TestC12SM$", 2000, shards=16, timeout="50m")]},
 }
 
